@@ -302,8 +302,14 @@ def meaning(ffi, t, depth=0):
     if k in ('pointer', 'array'):
         return (k, getattr(t, 'length', None), meaning(ffi, t.item, depth + 1))
     if k == 'function':
+        # 'ctype.ellipsis' also reports True for a non-variadic function type that libffi
+        # cannot describe (a struct with 'long double' by value; DESIGN section 4, (j)), and
+        # whether it does depends on when the type was first built: variadic is read from
+        # the name instead
+        ell = bool(t.ellipsis) and t.cname.count('...') > (
+            sum(a.cname.count('...') for a in t.args) + t.result.cname.count('...'))
         return ('function', tuple(meaning(ffi, a) for a in t.args), meaning(ffi, t.result),
-                t.ellipsis, t.abi)
+                ell, t.abi)
     return ('other', k, t.cname)
 
 
@@ -1064,9 +1070,23 @@ def finalize(ctx, setup):
         r = subprocess.run(['gcc', '-fsyntax-only', '-std=gnu11',
                             '-Werror=implicit-int', path], stdout=subprocess.PIPE,
                            stderr=subprocess.PIPE, timeout=600)
+        err = r.stderr.decode(errors='replace')
+        bad = set(int(m.group(1)) for m in re.finditer(r':(\d+):\d+: error', err))
+        if any(b <= base for b in bad):
+            # an error inside the expansion of a context macro is located at the '#define'
+            # line; the line that uses it is in the 'in expansion of macro' note.  The context
+            # itself is only at fault if it does not compile alone.
+            with open(path, 'w') as f:
+                f.write('\n'.join(lines[:base]) + '\n')
+            r0 = subprocess.run(['gcc', '-fsyntax-only', '-std=gnu11', '-Werror=implicit-int',
+                                 path], stdout=subprocess.PIPE, stderr=subprocess.PIPE,
+                                timeout=600)
+            if r0.returncode == 0:
+                bad = set(b for b in bad if b > base) | set(
+                    int(m.group(1)) for m in re.finditer(
+                        r':(\d+):\d+: note: in expansion of macro', err) if int(m.group(1)) > base)
         os.unlink(path)
-        return seed, ds, base, set(int(m.group(1)) for m in re.finditer(
-            r':(\d+):\d+: error', r.stderr.decode(errors='replace')))
+        return seed, ds, base, bad
     with cf.ThreadPoolExecutor(8) as ex:
         checked = list(ex.map(syntax_check, sorted(byseed.items())))
     for seed, ds, base, badlines in checked:
